@@ -10,15 +10,28 @@
 
    FULL statement of (1) (DESIGN §3 C05):  for every valid history and every account with any permission at the end,
    derives sk log ⊇ {K 0 … K current}  AND  view_keys me log = those keys.
-   Proved here: the first conjunct (inductive [Derives] and executable [derives]) — [c05_members_have_all_partial].
-   NOT proved: that the code's view function ([view_content]/[unpack], Model/AclKeys.v) returns exactly those keys; that
-   part is tied to the code by the correspondence check only (every account's validating and non-validating view is
-   rebuilt from the raw log after every record and compared with the model's view AND with spec_C05).
-   NOT proved: [forall input, spec_C05 input (model input) = true] for the history part of spec_C05 (only the tree part,
-   [c05_tree_model_satisfies_spec], and a computed instance, [c05_model_satisfies_spec_instance]). *)
+   Proved: both conjuncts.  [c05_members_have_all_partial] is the first (inductive [Derives] and executable
+   [derives]); [c05_members_have_all] (Proofs/AclKeysView.v) is the second: for every account of the universe the
+   views are modelled for (U), holding a permission at the end of an honest history, the code's unpacking
+   ([view_content] / [unpack] / [view_rot], Model/AclKeys.v) never failed and stores exactly the generations, which are
+   exactly what the account derives, each under its true key.  [c05_views_sound]: for EVERY account of U (member or
+   not) the view never fails, stores only true keys of existing generations, and only generations the account derives.
+
+   NOT proved: [forall h, honest_run .. h = true -> spec_C05 .. (model_steps .. h) = true].  As stated it is FALSE
+   ([c05_model_satisfies_spec_refuted]): spec_C05 judges "allowed generations" at RECORD boundaries (it sees
+   permissions only after each record), the theorems at CONTENT boundaries; an accepted record that admits an account
+   and removes it again (AccountsAdd; AccountRemove with rotation) delivers the then-current key to an account that
+   holds no permission at any record boundary.  The model is right (and so is C05: the account gets no key introduced
+   after its removal); the predicate is stricter than the property on such records, which the client builders cannot
+   produce.  What a repaired statement needs (not done): either the side condition "every identity admitted by a
+   content of an accepted record holds a permission at the end of that record" or [spec_step] adding [admits] of the
+   record's contents to the allowed map; plus invariants not yet in [KInv]: secrecy for invite principals ([PI k]),
+   "a live open invite leads to the current key", general completeness of [derives] for non-members, and the
+   [rot_exact] clause over observed member lists.  Tree part: [c05_tree_model_satisfies_spec]; one computed instance:
+   [c05_model_satisfies_spec_instance]. *)
 From Coq Require Import List NArith Bool.
 Import ListNotations.
-From AnySync Require Import Model.Acl Model.AclKeys Proofs.AclKeysBase Proofs.AclKeysStep Proofs.AclKeysInv.
+From AnySync Require Import Model.Acl Model.AclKeys Proofs.AclKeysBase Proofs.AclKeysStep Proofs.AclKeysInv Proofs.AclKeysView.
 Open Scope N_scope.
 
 (* every honest history reaches a state satisfying the key invariant *)
@@ -39,6 +52,30 @@ Proof.
   exact (members_derive_all ms _ a g (reach_hist owner root U h Hh) Hp Hg).
 Qed.
 Print Assumptions c05_members_have_all_partial.
+
+(* (1), view half: the keys the code's unpacking stores for a permission holder are exactly the generations = exactly
+   the derivable keys, each the true key of its generation; its own list accepted every record *)
+Theorem c05_members_have_all : forall owner root U h a,
+  honest_run (kinit owner root U) h = true ->
+  let ms := run_hist (kinit owner root U) h in
+  In a U -> perm_of (m_s ms) a <> 0 ->
+  exists keys, mget a (m_views ms) = Some (Some keys) /\ right_of (Some keys) = true /\
+    (forall g, In g (map fst keys) <-> In g (keychanges (m_s ms))) /\
+    (forall g, In g (map fst keys) <-> In g (derives (PA a) (m_log ms))) /\
+    (forall g, In g (map fst keys) <-> Derives (PA a) (m_log ms) g).
+Proof. exact members_view_all. Qed.
+Print Assumptions c05_members_have_all.
+
+(* every account of the universe, member or not: the view never fails, holds only true keys of existing generations,
+   and only generations the account can derive from the log with its private key *)
+Theorem c05_views_sound : forall owner root U h a,
+  honest_run (kinit owner root U) h = true ->
+  let ms := run_hist (kinit owner root U) h in
+  In a U ->
+  exists keys, mget a (m_views ms) = Some (Some keys) /\ right_of (Some keys) = true /\
+    forall g, In g (map fst keys) -> In g (keychanges (m_s ms)) /\ Derives (PA a) (m_log ms) g.
+Proof. exact views_sound. Qed.
+Print Assumptions c05_views_sound.
 
 (* (2) an account derives only generations that existed at a moment at which it held a permission; hence an account
    without permission derives no generation introduced since it last held one (never admitted: none at all) *)
@@ -155,3 +192,17 @@ Example c05_model_satisfies_spec_instance :
   let steps := model_steps (kinit 1 1 [1; 2; 3; 4]) [1; 2; 3; 4] (ex_hist ++ ex_readd) in
   spec_C05 1 1 steps = true /\ run_matches false (kinit 1 1 [1; 2; 3; 4]) steps = true.
 Proof. vm_compute. split; reflexivity. Qed.
+
+(* the unrestricted "model satisfies spec_C05" is false: one accepted, honest record that admits account 2 and removes
+   it again (with rotation); 2 derives generation 1 (delivered while it held a permission, between the two contents)
+   but holds no permission at any record boundary, which is all spec_C05 looks at *)
+Definition ex_rk_admit_remove : rkchange := mkRk true true [1] [].
+Definition ex_admit_remove : list hrec :=
+  [(1, 2, [(CAccountsAdd [(2, 3)], KDeliver [Some 1]); (CAccountRemove [2] (Some ex_rk_admit_remove), KRot [Some 2] [] (Some 1))])].
+Example c05_model_satisfies_spec_refuted :
+  honest_run (kinit 1 1 [1; 2]) ex_admit_remove = true /\
+  (let steps := model_steps (kinit 1 1 [1; 2]) [1; 2] ex_admit_remove in
+   map st_ok steps = [true] /\ run_matches false (kinit 1 1 [1; 2]) steps = true /\ spec_C05 1 1 steps = false) /\
+  (let ms := run_hist (kinit 1 1 [1; 2]) ex_admit_remove in
+   perm_of (m_s ms) 2 = 0 /\ derives (PA 2) (m_log ms) = [1] /\ keychanges (m_s ms) = [1; 2]).
+Proof. vm_compute. repeat split; reflexivity. Qed.
